@@ -144,6 +144,13 @@ def check(run):
         seqs.append([f"prep_verify {bytes(rng.getrandbits(8) for _ in range(288)).hex()} {rlngen.hx(sig)}"])
         seqs.append(["id_pair_de " + b"".join(le(v, 32) for v in vals[:2]).hex()])
         seqs.append(["id_tuple_de " + b"".join(le(v, 32) for v in vals[:4]).hex()])
+        # the readers on buffers of every length class (shorter than needed: panic in the slice, exactly below 64 / 128 / 32 bytes;
+        # longer: trailing bytes unread) and on values not below the modulus (reduced)
+        raw = bytes(rng.getrandbits(8) for _ in range(rng.choice([0, 1, 31, 32, 33, 63, 64, 65, 95, 96, 127, 128, 129, 160])))
+        seqs.append(["id_pair_de " + rlngen.hx(raw)])
+        seqs.append(["id_tuple_de " + rlngen.hx(raw)])
+        seqs.append(["fe_de " + rlngen.hx(raw)])
+        seqs.append(["fe_de " + le(rng.choice(FB + [P, P + 1, 2**256 - 1]), 32).hex()])
     run.rules.append("each codec in both directions against an encoder/decoder written from the documented layouts: field elements (boundary + random), vectors of length 0..n and long generated vectors (65535 / 65536 / 65537 / 70001 elements; thorough up to 2^20+1), usize lists with 2^32/2^63/2^64-1 entries, witnesses with path lengths 0..21 and boundary limits/ids, with missing / trailing bytes and inconsistent length prefixes, proof values, requests, the JSON witness codec (exact JSON text of both exports against the model's rendering; rln_witness_from_json on objects with one deviation each: missing / unknown / camelCase key, null, string, element that is not a byte, short and over-long field, value not below the modulus, wrong declared count), identity tuples (seeded and unseeded, RLN and FFI entry points, checked through the relations their fields satisfy in the documented order); distinct = distinct op line")
     # vectors longer than any internal chunking threshold, with lengths that are NOT multiples of small powers of two
     for n in ([0, 1, 65535, 65536, 65537, 70001] if run.tier == "quick" else [0, 1, 2, 1000, 16383, 16384, 16385, 65535, 65536, 65537, 70001, 131071, 131073, 262147, 1048577]):
